@@ -580,3 +580,23 @@ Definition gview (f : fmt) (r : grec) : arow :=
 Definition arow_eqb (a b : arow) : bool :=
   zlist_eqb (a_rec a) (a_rec b) &&
   list_eqb (fun p q => (fst p =? fst q) && (snd p =? snd q)) (a_rel a) (a_rel b).
+
+(* ================================================================== named arithmetic kernels
+   The formulas the operations above are built from, one name each; Bridge/C04.v proves (i) that the definitions
+   regenerated from the source (Gen/C04.v) equal these, and (ii) that getitem / make_contiguous / concatenate /
+   rest_of_line re-assembled from the regenerated formulas ARE the functions above. *)
+Definition m_rec_len (s e : Z) : Z := e - s.                          (* lens = entry_ends - entry_starts *)
+Definition m_new_starts (lens : list Z) : list Z := 0 :: cumsum lens. (* np.insert(np.cumsum(lens), 0, 0) *)
+Definition m_offset (es ns : Z) : Z := es - ns.                       (* entry_starts - new_starts[:-1] *)
+Definition m_rebase (fs o : Z) : Z := fs - o.                         (* field_starts - offsets[:, None] *)
+Definition m_shift (v o : Z) : Z := o + v.                            (* b._x + offset in concatenate *)
+Definition m_range_len (e s : Z) : Z := e - s - 1.                    (* get_fields_by_range, keep_sep = False *)
+Definition m_delim_start (d : Z) : Z := 1 + d.                        (* delimiters[:-1] + 1 *)
+Definition m_delim_entry_end (e : Z) : Z := e + 1.                    (* ends[:, -1] + 1 *)
+Definition ext_tuple (x : ext) := (x_data x, x_fs x, x_fl x, x_es x, x_ee x, x_contig x).
+(* SAMBuffer.join_fields (repaired code): in the flat table of cells, n per row, the separator to drop for a row
+   without tags is the last byte of cell (row, n - 2); a tag cell is empty when it only holds its separator *)
+Definition m_sam_cell_ends (lengths : list Z) : list Z := map (fun c => c - 1) (cumsum lengths).
+Definition m_sam_drop_cell (row n : Z) : Z := row * n + (n - 2).
+Definition m_sam_tag_first (n : Z) : Z := n - 1.
+Definition m_sam_tag_empty (l : Z) : bool := l =? 1.
